@@ -22,6 +22,7 @@ Units
             faces: Field.sel and Mesh.sel (ranges that end on subregion faces)
   plane     2-4-D meshes x axis x every probe coordinate / no coordinate
   plane1d   the only axis of a 1-D mesh
+  int_region  integer-typed region corners (negative corners, fractional cells): planes and ranges on every axis
   name      field[name] / mesh[name] for every subregion of every layout
   pad       all width combinations 0..2 per side and axis x 5 modes
   resample  all target resolutions from {1,2,3,5,n,2n} per axis
@@ -854,6 +855,37 @@ def unit_plane(ctx):
     _do_plane(ctx, geo, mesh, field, ax, probes[p])
 
 
+# integer-typed regions -------------------------------------------------------------------------------------------
+INT_AXES = [(-2, 2, 4), (-5, 5, 4), (0, 3, 6), (-3, 0, 2), (1, 4, 3)]  # (lo, hi, n) as Python ints; cells 1, 2.5, 0.5, 1.5, 1
+
+
+def unit_int_region(ctx):
+    """Meshes whose region corners were given as integers (the corner arrays are integer-typed) with negative lower
+    corners and fractional cell sizes: plane selection at every probe coordinate and range selection for all probe
+    pairs along every axis.  Any integer arithmetic on the requested (non-integer) coordinate shows up here."""
+    nd = ctx.choose("ndim", [2, 3, 1])
+    combos = {1: [(0,), (1,), (2,), (3,)], 2: [(0, 2), (1, 3), (3, 0), (2, 4)], 3: [(0, 1, 2), (3, 4, 0)]}[nd]
+    idx = ctx.choose("axes", combos)
+    axes = [INT_AXES[k] for k in idx]
+    mesh = _mesh(axes)
+    if np.asarray(mesh.region.pmin).dtype.kind != "i":
+        ctx.note("int-region:corners-not-integer-typed")  # the library converted them: nothing special to see
+    geo = Geo(mesh)
+    field = _field(ctx, mesh, nvdim=2)
+    ax = ctx.choose("axis", list(range(nd)))
+    op = ctx.choose("op", ["plane", "range"] if nd > 1 else ["range"])
+    if op == "plane":
+        probes = _plane_probes(geo, ax)
+        p = _pick(ctx, "probe", probes, 0, len(probes))
+        _do_plane(ctx, geo, mesh, field, ax, probes[p])
+    else:
+        pts = _probe_list(geo, ax)
+        a = _pick(ctx, "lo", pts, 0, len(pts))
+        b = _pick(ctx, "hi", pts, a, len(pts))
+        _do_range(ctx, geo, mesh, field, ax, pts[a][2], pts[b][2], f"{pts[a][:2]}..{pts[b][:2]}", with_mesh=True)
+
+
+
 def unit_plane1d(ctx):
     """the only axis of a 1-D mesh: the value at the selected cell must still be
     the source's; what is returned cannot be a field on a 0-D mesh - reported
@@ -1090,6 +1122,7 @@ def units(tier):
         {"name": "rangesub", "fn": unit_rangesub, "bound": None},
         {"name": "plane", "fn": unit_plane, "bound": None},
         {"name": "plane1d", "fn": unit_plane1d, "bound": None},
+        {"name": "int_region", "fn": unit_int_region, "bound": None},
         {"name": "name", "fn": unit_name, "bound": None},
         {"name": "pad", "fn": unit_pad, "bound": None},
         {"name": "resample", "fn": unit_resample, "bound": None},
